@@ -1,4 +1,5 @@
 import Tahoe.Storage.LemmasSlot
+import Tahoe.Storage.LemmasLeaseBucket
 /-!
 C23 — mutable share containers behave like byte arrays (property theorems only; helper lemmas are in
 `Tahoe/Storage/Lemmas{Mutable,Lease,Slot}.lean`).
@@ -22,8 +23,10 @@ Coverage of the statement (properties.jsonl C23), clause → theorem(s) proving 
 * (order of the write vectors of one request) → `write_vectors_in_order`
 * "data writes never alter the share's leases" → `leases_unchanged_by_data_ops` (container, any vectors, even a failing
       call); whole request: C25 `rtw_keeps_every_lease`
-* not covered: requests that raise on the UNREPAIRED server (`refines_bytearray` assumes the size pre-check of
-  fixes/C24-precheck.diff, which /repo contains); negative offsets / non-`eq` operators (outside the model).
+* requests that RETURN on the unrepaired server (no size pre-check) are covered as well: `refines_bytearray` has no
+  hypothesis on `precheck` (a write phase that did not raise had only admissible vectors, `evalWrites_none_fits`);
+  requests that RAISE are C24's subject (`all_or_nothing`, `all_or_nothing_counterexample`).
+* not covered: negative offsets / non-`eq` test operators (rejected by the wire schemas; outside the model).
 -/
 namespace Tahoe.C23
 open Tahoe.Base.File Tahoe.Storage Tahoe.Storage.Mutable Tahoe.Storage.Slot Tahoe.Generated.Storage
@@ -84,14 +87,15 @@ theorem slot_readv_refines (b : Bucket) (shares : List Nat) (rv : List (Nat × N
     slotReadv b shares rv = Spec.slotReadv (absBucket b) shares rv := by
   simp only [slotReadv, Spec.slotReadv, absBucket, List.filter_map, List.map_map, Function.comp_def, readv_eq]
 
-/-- **refines_bytearray** (server level, repaired server): in every reachable state, a request that
+/-- **refines_bytearray** (server level; repaired AND unrepaired server — no hypothesis on the size pre-check):
+    in every reachable state, a request that
     returns normally answers exactly as the byte-array specification does — the test verdict is the
     comparison against the current arrays (a missing share reads as empty), the read data are clipped
     reads of the arrays BEFORE the request, and afterwards the arrays are those of the specification:
     every write vector spliced in with zero fill, `new_length` applied, `new_length = 0` deleting the
     share; unchanged when a test failed.  Together with `reachable_wf` and `slot_readv_refines` this is
     the simulation of all request histories by the finite map of growable byte arrays. -/
-theorem refines_bytearray (qs : List Req) (q : Req) (hfix : q.env.precheck = true)
+theorem refines_bytearray (qs : List Req) (q : Req)
     (g : Bool) (reads : List (Nat × List Bytes))
     (hout : (q.run (runAll [] qs)).out = .ok (g, reads)) :
     g = Spec.evalTests (absBucket (runAll [] qs)) q.tw ∧
@@ -106,10 +110,19 @@ theorem refines_bytearray (qs : List Req) (q : Req) (hfix : q.env.precheck = tru
   · simp at hout
   · rename_i hc
     by_cases hg : evalTests b q.tw
-    · simp only [hg, Bool.not_true, Bool.false_eq_true, if_false, hfix, Bool.true_and] at hout ⊢
-      by_cases hs : sizesOk q.tw
-      · simp only [hs, Bool.not_true, Bool.false_eq_true, if_false] at hout ⊢
-        obtain ⟨b1, rem, e, w1, a1⟩ := evalWrites_ok q.env.nodeid q.we q.tw b [] hb ((sizesOk_iff _).mp hs)
+    · simp only [hg, Bool.not_true, Bool.false_eq_true, if_false] at hout ⊢
+      by_cases hpc : (q.env.precheck && !sizesOk q.tw) = true
+      · simp [hpc] at hout
+      · simp only [hpc, Bool.false_eq_true, if_false] at hout ⊢
+        -- the write phase did not raise (the request returned), so every applied vector was admissible
+        have hfits : TwFits q.tw := by
+          apply evalWrites_none_fits q.env.nodeid q.we q.tw b [] hb
+          generalize evalWrites q.env.nodeid q.we b q.tw [] = r at hout
+          obtain ⟨b1, rem, e⟩ := r
+          cases e with
+          | none => rfl
+          | some e => simp at hout
+        obtain ⟨b1, rem, e, w1, a1⟩ := evalWrites_ok q.env.nodeid q.we q.tw b [] hb hfits
         simp only [e] at hout ⊢
         by_cases hr : q.renewLeases
         · simp only [hr, Bool.not_true, Bool.false_eq_true, if_false] at hout ⊢
@@ -127,10 +140,18 @@ theorem refines_bytearray (qs : List Req) (q : Req) (hfix : q.env.precheck = tru
           obtain ⟨rfl, rfl⟩ := hout
           simp only [if_true]
           exact ⟨trivial, trivial, a1⟩
-      · simp [hs] at hout
     · simp only [hg, Bool.not_false, if_true, Except.ok.injEq, Prod.mk.injEq] at hout ⊢
       obtain ⟨rfl, rfl⟩ := hout
       simp
+
+set_option maxRecDepth 20000 in
+/-- non-vacuity on the UNREPAIRED server (`precheck := false`): a request that returns -/
+example :
+    let q : Req := { env := { h := id, nodeid := zeros 20, now := 0, avail := 0, precheck := false }, we := zeros 32,
+                     renew := [], cancel := [], tw := [(0, { testv := [(0, 1, [])], datav := [(2, [7])], newLength := none })],
+                     rv := [], renewLeases := false }
+    (q.run (runAll [] [])).err = none ∧ absBucket (q.run (runAll [] [])).bucket = [(0, [0, 0, 7])] := by
+  decide
 
 /-! ### a test vector reads exactly `length` bytes (clipped at the end of the data) and compares for equality -/
 
